@@ -162,6 +162,12 @@ def classMroEarly (bases : Nat → List Nat) (ext : Nat → Bool) (c : Nat) (inc
   if includeSelf then allbases bases ext c
   else ((bases c).filter (fun b => !ext b)).flatMap (allbasesFuel bases ext c)
 
+/-- `Class.find(name)` while `_mro` is still `None`: what `expandName` (an inherited nested class
+named as a base, an alias of an inherited member) and `astbuilder._maybeAttribute` get during the visit. -/
+def findEarly (bases : Nat → List Nat) (ext : Nat → Bool) (owns : Nat → Nat → Bool) (c name : Nat) :
+    Option Nat :=
+  (classMroEarly bases ext c).find? fun b => owns b name
+
 /-- `is_exception(cls)`: `for base in cls.mro(True, False): if base in _STD_LIB_EXCEPTIONS: return True`.
 `std b` = `b` is an unresolved base whose name is in the table (a `Class` object is never `in` a
 tuple of strings). -/
